@@ -85,6 +85,15 @@ type LockAnalysis struct {
 	entry   map[*ssa.Function]LockSet // nil = TOP (not yet constrained)
 	before  map[ssa.Instruction]LockSet
 	sl      *Slicer
+	// a literal passed to a callee that only calls it back synchronously: where it is passed and where
+	// it is invoked.  Its entry lockset is what is held at the invocation, plus what the passing call
+	// holds and the functions in between do not release.
+	callbacks map[*ssa.Function][]callbackSite
+}
+
+type callbackSite struct {
+	pass ssa.CallInstruction
+	inv  *ssa.Call
 }
 
 // lockOp classifies a call as a lock operation on a mutex field.
@@ -121,7 +130,8 @@ func lockOp(cc *ssa.CallCommon) (f *types.Var, acquire bool, mode LockMode, ok b
 
 func NewLockAnalysis(m *Module, sl *Slicer, pkgs ...string) *LockAnalysis {
 	la := &LockAnalysis{inPkg: map[*ssa.Function]bool{}, callers: map[*ssa.Function][]ssa.CallInstruction{},
-		escapes: map[*ssa.Function]bool{}, entry: map[*ssa.Function]LockSet{}, before: map[ssa.Instruction]LockSet{}, sl: sl}
+		escapes: map[*ssa.Function]bool{}, entry: map[*ssa.Function]LockSet{}, before: map[ssa.Instruction]LockSet{}, sl: sl,
+		callbacks: map[*ssa.Function][]callbackSite{}}
 	for _, p := range pkgs {
 		la.fns = append(la.fns, m.PkgFuncs(p)...)
 	}
@@ -142,8 +152,14 @@ func NewLockAnalysis(m *Module, sl *Slicer, pkgs ...string) *LockAnalysis {
 				// function values passed as arguments escape — unless the callee only calls them synchronously
 				for i, a := range x.Call.Args {
 					if mc, ok := strip(a).(*ssa.MakeClosure); ok && callee != nil && la.inPkg[callee] && i < len(callee.Params) && syncOnlyParam(callee, i, map[*ssa.Function]bool{}) {
+						// the literal runs where the callee invokes its parameter: it starts with the lockset held
+						// there (the callee may take a lock before calling back, as a generic wait helper does)
 						h := mc.Fn.(*ssa.Function)
+						invs := invocationsOfParam(callee, i, map[*ssa.Function]bool{})
 						la.callers[h] = append(la.callers[h], x)
+						for _, inv := range invs {
+							la.callbacks[h] = append(la.callbacks[h], callbackSite{x, inv})
+						}
 						continue
 					}
 					la.markEscape(a)
@@ -211,6 +227,35 @@ func NewLockAnalysis(m *Module, sl *Slicer, pkgs ...string) *LockAnalysis {
 			}
 			var acc LockSet
 			first := true
+			if cbs := la.callbacks[f]; len(cbs) > 0 {
+				// a synchronous callback: per (passing call, invocation) pair
+				for _, cb := range cbs {
+					lp, ok1 := la.before[cb.pass.(ssa.Instruction)]
+					li, ok2 := la.before[ssa.Instruction(cb.inv)]
+					if !ok1 || !ok2 {
+						continue
+					}
+					ls := li.clone()
+					for l, mode := range lp {
+						if la.releasedBetween(l, cb) {
+							continue
+						}
+						if ls[l] < mode {
+							ls[l] = mode
+						}
+					}
+					if first {
+						acc, first = ls, false
+					} else {
+						acc = meet(acc, ls)
+					}
+				}
+				if !first && !equalLS(la.entry[f], acc) {
+					la.entry[f] = acc
+					changed = true
+				}
+				continue
+			}
 			for _, cs := range la.callers[f] {
 				ls, ok := la.before[cs.(ssa.Instruction)]
 				if !ok {
@@ -393,4 +438,65 @@ func syncOnlyParam(fn *ssa.Function, idx int, seen map[*ssa.Function]bool) bool 
 		}
 	}
 	return true
+}
+
+// invocationsOfParam: the call instructions through which the (synchronous-only) func-typed parameter
+// idx of fn is invoked, in fn or in the callees it is handed on to.
+func invocationsOfParam(fn *ssa.Function, idx int, seen map[*ssa.Function]bool) []*ssa.Call {
+	if seen[fn] || idx >= len(fn.Params) {
+		return nil
+	}
+	seen[fn] = true
+	var out []*ssa.Call
+	refs := fn.Params[idx].Referrers()
+	if refs == nil {
+		return nil
+	}
+	for _, r := range *refs {
+		c, ok := r.(*ssa.Call)
+		if !ok {
+			continue
+		}
+		if c.Call.Value == ssa.Value(fn.Params[idx]) {
+			out = append(out, c)
+			continue
+		}
+		if callee := staticCallee(&c.Call); callee != nil {
+			for j, a := range c.Call.Args {
+				if a == ssa.Value(fn.Params[idx]) {
+					out = append(out, invocationsOfParam(callee, j, seen)...)
+				}
+			}
+		}
+	}
+	return out
+}
+
+// releasedBetween: some function between the passing call and the invocation (the callee and the
+// functions it hands the callback on to) releases lock l.
+func (la *LockAnalysis) releasedBetween(l *types.Var, cb callbackSite) bool {
+	seen := map[*ssa.Function]bool{}
+	var fns []*ssa.Function
+	if g := staticCallee(cb.pass.Common()); g != nil {
+		fns = append(fns, g)
+	}
+	fns = append(fns, cb.inv.Parent())
+	for len(fns) > 0 {
+		f := fns[0]
+		fns = fns[1:]
+		if f == nil || seen[f] || f.Blocks == nil {
+			continue
+		}
+		seen[f] = true
+		for _, in := range instrsOf(f) {
+			ci, ok := in.(ssa.CallInstruction)
+			if !ok {
+				continue
+			}
+			if fl, acquire, _, ok := lockOp(ci.Common()); ok && !acquire && fl == l {
+				return true
+			}
+		}
+	}
+	return false
 }
